@@ -1571,7 +1571,11 @@ class Scenarios(Gen):
             else:
                 new = bytearray(r.getrandbits(8) for _ in range(len(raw)))
             reg = self.fresh_reg()
-            b.ops.append({"pseudo": "mk", "out": reg, "value": ["bytearray", hx]})
+            # the buffer starts with contents no earlier call has seen (a memo that
+            # already holds an equal immutable key would not take the buffer in)
+            first = bytearray(raw)
+            first[0] ^= 0xA5
+            b.ops.append({"pseudo": "mk", "out": reg, "value": ["bytearray", bytes(first).hex()]})
             a2 = list(args1)
             a2[pos] = {"reg": reg}
             b.ops.append(clone(a2))
@@ -1581,6 +1585,24 @@ class Scenarios(Gen):
             a3 = list(args1)
             a3[pos] = lit(["bytes", bytes(new).hex()])      # immutable bytes, same contents
             b.ops.append(clone(a3))
+        # (4) the same call with one element after the first replaced by something the
+        # library rejects (identity encoding, zeros, a truncated encoding), then the good
+        # call again: work abandoned in the middle of a list must leave nothing behind
+        lp = [p for p, a in enumerate(args1) if isinstance(a.get("list"), list)
+              and len(a["list"]) >= 2 and all("lit" in x for x in a["list"])]
+        if lp and tpl.cost <= 900:
+            pos = r.choice(lp)
+            items = args1[pos]["list"]
+            j = r.randrange(1, len(items))
+            c = items[j]["lit"]
+            if isinstance(c, list) and len(c) == 2 and c[0] == "bytes":
+                n = len(c[1]) // 2
+                bad = r.choice([b"\xc0" + b"\x00" * max(0, n - 1), b"\x00" * n,
+                                bytes.fromhex(c[1])[:-1], b"\xff" * n])
+                a2 = list(args1)
+                a2[pos] = {"list": items[:j] + [lit(B(bad))] + items[j + 1:]}
+                b.ops.append(clone(a2))
+                b.ops.append(clone())
         # (3) a list argument the caller keeps and changes
         lpos = [p for p, a in enumerate(args1) if isinstance(a.get("list"), list) and a["list"]
                 and all("lit" in x for x in a["list"])]
